@@ -20,5 +20,5 @@ def run(ctx):
         neg_cfgs=[("neg_snap_ignore_tracked", "Inv_C23"), ("neg_snap_no_dir_delete", "Inv_C23"),
                   ("neg_snap_skip_ignored_dir", "Inv_C23"), ("finding_stale_state", "Inv_C23"),
                   ("finding_dir_conflict", "Inv_C23"), ("finding_tracked_dir", "Inv_C23")],
-        gen_cfgs=[("gen_c23", ctx.q(300, 4000))],
-        n_random=ctx.q(300, 6000), focus="snapshot")
+        gen_cfgs=[("gen_c23", ctx.q(300, 2400))],
+        n_random=ctx.q(300, 4000), focus="snapshot")
